@@ -3,10 +3,13 @@ from .. import common as C
 from . import c07
 
 ID = "C08"
-MODULES = ["Helios.Props.C08", "Helios.Props.CodeCB", "Helios.Props.C12"]
+MODULES = ["Helios.Props.C08", "Helios.Props.CodeCB", "Helios.Props.CodeWire", "Helios.Props.C12"]
 THEOREMS = [
     "Helios.CB.inv_init", "Helios.CB.inv_step", "Helios.CB.inv_run",
     "Helios.CB.never_stuck", "Helios.CB.accepted_config_live",
+    # Tie C: setupCircuitBreaker as written constructs the breaker with Wire.cbEff; for an accepted configuration that is the
+    # configured numbers, an omitted max_requests becoming success_threshold (never fewer trials than successes needed)
+    "Helios.CodeTie.setupCircuitBreaker_refines", "Helios.CodeTie.cbEff_accepted", "Helios.CodeTie.translation_clean_wire",
     # notifications never block request processing: no observer runs under a lock, every lock has a
     # rank and locks are taken in rank order (lockorder_sound: no reachable state is stuck)
     "Helios.Locks.lockorder_sound", "Helios.Facts.no_callback_under_lock", "Helios.Facts.lock_classes_ranked",
@@ -86,6 +89,7 @@ def front_live_oracle(ep, outs):
 def check(ctx):
     ctx.assumptions += [
         "virtual clock via overlay; requests overlap at critical-section granularity",
+        "every admitted request ends (never_stuck is about requests that complete): exchanges are bounded by the handler deadline, which the front-end liveness episodes observe with every shipped plugin in the chain; an upgraded (WebSocket) session is exempt from that deadline by design and, if it happens to be the half-open trial, holds its slot until either peer closes",
         "configuration validation + defaulting give 1 <= success_threshold <= max_requests (theorem accepted_config_live; validator relation checked by the C18 correspondence)",
         "state-change notifications run after the breaker lock is released (lock-order fact, re-derived from the source by the C12 extractor); the harness callback calls Counts() so a regression hangs the run and is reported",
     ]
